@@ -23,6 +23,8 @@
    with SCAN_NO_FINAL = a scan without any re-validation: ScanOK fails).
    SCAN_DUP (defect F17 of the pinned tree: a key whose border was emptied and unlinked and that is inserted again lands in the border
    the scan is standing on and is returned a second time).
+   LATE_PARENT (seed C09d: border_split stores the new border's parent pointer after it has unlocked the parent: a remover that empties the
+   new border in between reads "no parent", takes the root lock, finds another root and repeats that for ever: Termination fails).
    ISCAN_NO_REWIND (the cursor keeps its rank when the permutation of its border changed: entries shift under it).
    iscan (cursor: open(-inf, +inf), next until the end): IOLv1 IOP IOLv2 IOStack / INTop INNext INEnt / iscan_check_retry CK1..CK4 with the
    outcome CkDone per call site / INNb1..3 move to the neighbour / IRFb retry_after_fb / IRRoot IRArr retry_from_root / IRet
@@ -37,7 +39,7 @@ CONSTANTS F, Keys, Threads,
           Prog,            \* [Threads -> [op : {"get", "put", "rem"}, k : Keys, v : value id]]
           Init1, Init2,    \* keys of B1 and B2 (every key of B1 below every key of B2; both non-empty)
           UNLOCK_BEFORE_PARENT, NO_INS_ON_INSERT, NO_INS_ON_DELETE,
-          SCAN_NO_FINAL, SCAN_NO_ENTRY_CHECK, SCAN_DUP, ISCAN_NO_REWIND, SCAN_FRESH_VERSION
+          SCAN_NO_FINAL, SCAN_NO_ENTRY_CHECK, SCAN_DUP, ISCAN_NO_REWIND, SCAN_FRESH_VERSION, LATE_PARENT
 ABSENT == 0
 NULL == 0
 NoSlot == 99
@@ -247,7 +249,7 @@ X3(t) == /\ pc[t] = "x3" /\ (IF UNLOCK_BEFORE_PARENT THEN UNCHANGED bd ELSE SetB
          /\ UNCHANGED <<it, rootp, rootlock, loc, abs, seen, res>>
 X4(t) == /\ pc[t] = "x4" /\ (IF UNLOCK_BEFORE_PARENT THEN UNCHANGED bd ELSE SetBV(3, Unl(bd[3].ver))) /\ Goto(t, "x5")
          /\ UNCHANGED <<it, rootp, rootlock, loc, abs, seen, res>>
-X5(t) == /\ pc[t] = "x5" /\ it[loc[t].pn].n < F /\ bd' = [bd EXCEPT ![3].parent = loc[t].pn] /\ Goto(t, "x6")
+X5(t) == /\ pc[t] = "x5" /\ it[loc[t].pn].n < F /\ (IF LATE_PARENT THEN UNCHANGED bd ELSE bd' = [bd EXCEPT ![3].parent = loc[t].pn]) /\ Goto(t, "x6")
          /\ UNCHANGED <<it, rootp, rootlock, loc, abs, seen, res>>
 X6(t) == /\ pc[t] = "x6" /\ LET p == loc[t].pn IN
             /\ SetIV(p, [it[p].ver EXCEPT !.ins = ~NO_INS_ON_INSERT])
@@ -266,8 +268,11 @@ XCh(t) == /\ pc[t] = "xch" /\ it' = [it EXCEPT ![loc[t].pn].ch[loc[t].i + 1] = 3
           /\ Goto(t, "xn") /\ UNCHANGED <<bd, rootp, rootlock, loc, abs, seen, res>>
 XN(t) == /\ pc[t] = "xn" /\ it' = [it EXCEPT ![loc[t].pn].n = @ + 1] /\ Goto(t, "x9")
          /\ UNCHANGED <<bd, rootp, rootlock, loc, abs, seen, res>>
-X9(t) == /\ pc[t] = "x9" /\ SetIV(loc[t].pn, Unl(it[loc[t].pn].ver)) /\ Ret(t, <<"OK", 0>>)
+X9(t) == /\ pc[t] = "x9" /\ SetIV(loc[t].pn, Unl(it[loc[t].pn].ver)) /\ (IF LATE_PARENT THEN Goto(t, "x10") /\ UNCHANGED res ELSE Ret(t, <<"OK", 0>>))
          /\ UNCHANGED <<bd, rootp, rootlock, loc, abs, seen>>
+\* defect switch LATE_PARENT (seed C09d): the new border gets its parent pointer only after the parent has been unlocked
+X10(t) == /\ pc[t] = "x10" /\ bd' = [bd EXCEPT ![3].parent = loc[t].pn] /\ Ret(t, <<"OK", 0>>)
+          /\ UNCHANGED <<it, rootp, rootlock, loc, abs, seen>>
 \* ---------------------------------------------------------------- remove: entry, then border deletion
 RClear(t) == /\ pc[t] = "r_clear" /\ bd' = [bd EXCEPT ![loc[t].b].lv[loc[t].idx] = 0] /\ Goto(t, "r_pub")
              /\ UNCHANGED <<it, rootp, rootlock, loc, abs, seen, res>>
@@ -498,7 +503,7 @@ Step(t) == IStep(t) \/ SEnter(t) \/ SRet(t) \/ SNext(t) \/ SPermS(t) \/ SVal(t) 
            \/ RFc0(t) \/ Lock(t) \/ Chk(t) \/ PUndel(t) \/ PSlot(t) \/ PPub(t) \/ PSet(t) \/ PUnlock(t)
            \/ S1(t) \/ S3a(t) \/ S3(t) \/ S3b(t) \/ SMove(t) \/ SPerm(t) \/ S6(t) \/ S7a(t) \/ S7b(t) \/ U1(t) \/ U2(t)
            \/ LpLd(t) \/ SRl(t) \/ SRl2(t) \/ LpL(t) \/ LpC(t) \/ N1a(t) \/ N1b(t) \/ N1c(t) \/ N2(t) \/ N3(t) \/ N4(t) \/ N5(t) \/ N6(t)
-           \/ X1(t) \/ X2(t) \/ X3(t) \/ X4(t) \/ X5(t) \/ X6(t) \/ XKey(t) \/ XChS(t) \/ XCh(t) \/ XN(t) \/ X9(t)
+           \/ X1(t) \/ X2(t) \/ X3(t) \/ X4(t) \/ X5(t) \/ X6(t) \/ XKey(t) \/ XChS(t) \/ XCh(t) \/ XN(t) \/ X9(t) \/ X10(t)
            \/ RClear(t) \/ RPub(t) \/ RUnlock(t) \/ RDel(t) \/ RPrev(t) \/ RNextFix(t) \/ RPLock(t) \/ RPChk(t) \/ RPNP(t) \/ RPUnl(t)
            \/ RLp(t) \/ RRl(t) \/ RRl2(t) \/ RClrP(t) \/ RClrN(t) \/ RRUnl(t) \/ RLpl(t) \/ RLpc(t) \/ RRoot0(t) \/ RSelfUnl(t)
            \/ IIns(t) \/ YShiftK(t) \/ YShiftC(t) \/ YClrC(t) \/ YClrK(t) \/ YN(t) \/ YUnl(t)
